@@ -71,12 +71,11 @@ Definition step_out (l : layout) (w : world) (g : gen_call) : world * bool :=
   let c := g_client g in
   if negb (g_force g) && dir_exists l w c then
     (* diff path: everything is emitted under a temporary root whose registry is empty, then
-       compared with the existing files; nothing under the project root changes.  A client that
-       was generated before always differs (its rich __init__.py exists only in the direct path);
-       a directory that only holds the core compares equal when the alias classes coincide. *)
-    let ok := negb (amem c (clients w)) && opt_eqb codes_eqb (aliases w) (Some (errs_of g)) in
-    ({| registry := registry w; aliases := aliases w; clients := clients w;
-        claimed := if ok then add_str c (claimed w) else claimed w |}, ok)
+       compared with the existing files; nothing under the project root changes.  The comparison
+       always finds a difference here: a client that was generated before differs in its rich
+       __init__.py (written only in the direct path), and a directory that only holds the core
+       lacks client.py etc. (_show_diffs reports files present on one side only) — the call raises. *)
+    (w, false)
   else
     (* direct path: shutil.rmtree(out_dir) when it exists — this takes the core with it when the
        core lives inside this client's directory *)
@@ -123,18 +122,11 @@ Definition wf_layout (l : layout) : bool := is_shared l.
    while that directory exists (rmtree takes registry and aliases with it) *)
 Definition bad_F11b (l : layout) (w : world) (g : gen_call) : bool :=
   inside l (g_client g) && dir_exists l w (g_client g) && g_force g.
-(* F11c: a non-force call on a directory that only holds the core returns success without
-   generating the client *)
-Definition bad_F11c (l : layout) (w : world) (g : gen_call) : bool :=
-  negb (g_force g) && dir_exists l w (g_client g) && negb (amem (g_client g) (clients w))
-  && opt_eqb codes_eqb (aliases w) (Some (errs_of g)).
-
 Fixpoint never (bad : layout -> world -> gen_call -> bool) (l : layout) (w : world) (h : list gen_call) : bool :=
   match h with
   | [] => true
   | g :: r => negb (bad l w g) && never bad l (step l w g) r
   end.
 Definition guard_F11b (l : layout) (h : list gen_call) : bool := never bad_F11b l init h.
-Definition guard_F11c (l : layout) (h : list gen_call) : bool := never bad_F11c l init h.
 Definition guard (l : layout) (h : list gen_call) : bool :=
-  wf_layout l && guard_F11b l h && guard_F11c l h.
+  wf_layout l && guard_F11b l h.
